@@ -158,7 +158,7 @@ func runC17(c *Ctx) {
 		progs = append(progs, p)
 		origins = append(origins, fmt.Sprintf("corpus:%d", i))
 	}
-	n := c.Pick(150, 6000)
+	n := c.Pick(150, 5000)
 	if v := os.Getenv("VH_N"); v != "" {
 		fmt.Sscan(v, &n)
 	}
